@@ -30,6 +30,7 @@ def check(repo, rep, tier):
     # after clear() the context is a new mapping: what was loaded or registered before is unknown again
     from .. import rules_db as rd
     rep.run(rd.rule_clear_resets, em, rep, 'C08.Q14')
+    rep.run(rx.rule_clear_restores_context, em, rep, 'C08.Q15')
     from .. import rules_compile as rc
     from .. import rules_clause as rcl
     rep.run(rcl.rule_calls_late_bound, rc.CompilerModel(repo), rep, 'C08.Q7')
